@@ -33,8 +33,13 @@ REGEN_FILLS = {"gen_fa_spectrum": ("fa",), "generate_fa_spectrum": ("fa",),
                "gen_response_spectrum": ("resp",), "generate_response_spectrum": ("resp",),
                "generate_displacement_and_velocity_series": ("vd",)}
 IREAD_SIG = ["im.max_fa_period", "im.calc_bandwidth_freqs", "im.calc_bandwidth_f_min", "im.calc_bandwidth_f_max",
-             "fns.get_sig_freq_range"]
-IREAD_ACC = IREAD_SIG + ["im.calc_isv", "im.calc_unit_kinetic_energy", "im.calc_integral_of_abs_velocity"]
+             "fns.get_sig_freq_range", "fns.generate_fa_spectrum", "fns.calc_fa_spectrum", "fns.get_peak_indices",
+             "fns.get_zero_crossings_indices", "fns.get_switched_peak_indices", "fns.interp_to_approx_dt",
+             "fns.get_section_average", "im.calc_arias_intensity", "im.calc_cav", "im.calc_integral_of_abs_acceleration"]
+IREAD_ACC = IREAD_SIG + ["im.calc_isv", "im.calc_unit_kinetic_energy", "im.calc_integral_of_abs_velocity",
+                         "im.calc_sig_dur", "im.calc_cumulative_abs_displacement", "sdof.calc_resp_uke_spectrum",
+                         "sdof.calc_input_energy_spectrum", "im.cumulative_response_spectra:arias_intensity",
+                         "method.response_series"]
 IREAD_FILLS = {"im.max_fa_period": ("fa",), "im.calc_bandwidth_freqs": ("fa", "smooth"),
                "im.calc_bandwidth_f_min": ("fa", "smooth"), "im.calc_bandwidth_f_max": ("fa", "smooth"),
                "fns.get_sig_freq_range": ("fa", "smooth"), "im.calc_isv": ("vd",),
@@ -192,8 +197,14 @@ class C04(Profile):
             return getattr(obj, op["m"])()
         if k == "iread":
             mod, fn = op["f"].split(".")
-            m = {"im": eqsig.im, "fns": eqsig}[mod]
-            return getattr(m, fn)(obj)
+            extra = []
+            if ":" in fn:
+                fn, arg = fn.split(":")
+                extra = [arg]
+            m = {"im": eqsig.im, "fns": eqsig, "sdof": eqsig.sdof, "method": obj}[mod]
+            if mod == "method":
+                return getattr(obj, fn)()
+            return getattr(m, fn)(obj, *extra)
         if k == "mut":
             name = op["m"].split(":")[0]
             if name == "szrdv":
@@ -352,7 +363,7 @@ class C04(Profile):
             return
         if k == "iread":
             if out.ok:
-                world.warm[op["p"]].update(IREAD_FILLS[op["f"]])
+                world.warm[op["p"]].update(IREAD_FILLS.get(op["f"], ()))
             return
         # an operation that is supposed to change values or settings
         for p in self._affected(world, op):
